@@ -907,6 +907,26 @@ class TermEval(AbsInt):
             return ("lambdaobj", node)
         return ("opaque", type(node).__name__)
 
+    def eval_correlated(self, fi, expr, env=None, cap=16):
+        """evaluate `expr` once per consistent choice of the alternatives of the names it mentions (a name
+        bound to several alternatives takes the SAME one everywhere in the expression)"""
+        import itertools as _it
+        env = dict(env or {})
+        ctx = AbsInt.Ctx(fi, env)
+        choices = {}
+        for n in sorted(df.names_in(expr)):
+            if n in env:
+                continue
+            v = self.name(n, ctx)
+            alts = alternatives(v)
+            if len(alts) > 1:
+                choices[n] = alts
+        if not choices:
+            return [self.eval_in(fi, expr, env)]
+        names = sorted(choices)
+        combos = list(_it.product(*[choices[n] for n in names]))[:cap]
+        return [self.eval_in(fi, expr, {**env, **dict(zip(names, c))}) for c in combos]
+
     def name(self, name, ctx):
         acc = self.accumulate(name, ctx)
         if acc is not None:
